@@ -307,6 +307,14 @@ def _run_selection(case, ctx):
     units = gen.random_units(r) if r.random() < 0.5 else None
     spec = gen.point_spec(r, n=r.randint(1, 40), units=units, extras=True, meta={})
     route = r.choice(["df", "df_offset", "df_perm", "df_str", "df_cols", "df_branchcol"])
+    if case["seed"] % 3 == 0 and len(spec["branch"]) >= 3:
+        # marks assigned by the user in whatever layout the experiment had (desorption scan inside the adsorption run, desorption
+        # recorded before a re-adsorption): not "all adsorption rows, then all desorption rows"
+        marks = [r.randint(0, 1) for _ in spec["branch"]]
+        if sorted(marks) == marks:
+            marks = marks[::-1] if len(set(marks)) > 1 else [1, 0] + marks[2:]
+        spec["branch"] = marks
+        ctx.count("selection", "interleaved-branch-marks")
     iso = gen.build_point(spec, route)
     p, l, b = numpy.array(spec["pressure"]), numpy.array(spec["loading"]), numpy.array(spec["branch"])
     ctx.sample({"spec_units": spec["units"], "n": len(p), "route": route}) if r.random() < 0.03 else None
@@ -327,7 +335,9 @@ def _run_selection(case, ctx):
                 k2 = r.randrange(k, len(srt) - 1)
                 lo = (srt[k] + srt[k + 1]) / 2
                 hi = (srt[k2] + srt[min(k2 + 1, len(srt) - 1)]) / 2 if k2 + 1 < len(srt) else srt[-1] + 1
-                for lim in ((lo, hi), (lo, None), (None, hi), (None, None), (srt[-1] + 1.0, None), (hi, lo)):
+                # (the last two: limits read off the table itself - a stored point whose value *is* the minimum or maximum asked for
+                # belongs to the slice; the closed interval is the rule of all three accessors of a point isotherm)
+                for lim in ((lo, hi), (lo, None), (None, hi), (None, None), (srt[-1] + 1.0, None), (hi, lo), (float(srt[k]), float(srt[min(k2 + 1, len(srt) - 1)])), (float(srt[k]), None)):
                     got = _call(fn, branch=branch, limits=lim)
                     a_ = -numpy.inf if lim[0] is None else lim[0]
                     b_ = numpy.inf if lim[1] is None else lim[1]
